@@ -483,11 +483,17 @@ func (s *qSim) start(capacity int, withBl bool, again bool) {
 	}
 	s.al = addrlist.New(capacity, b, s.port, &s.cip)
 	s.ptrIdx = map[*net.TCPAddr]int{}
-	client := &net.TCPAddr{IP: s.cip, Port: s.port}
+	cip, pool := s.describe()
 	if again {
-		emit(ev{"op": "Reinit", "cap": capacity})
+		emit(ev{"op": "Reinit", "cap": capacity, "cip": cip, "prios": priosOf(pool)})
 		return
 	}
+	emit(ev{"op": "Init", "cap": capacity, "port": s.port, "cip": cip, "bl": withBl, "pool": pool})
+}
+
+// describe returns the client address and the pool with the BEP 40 priorities w.r.t. the CURRENT client address.
+func (s *qSim) describe() ([2]int, []ev) {
+	client := &net.TCPAddr{IP: s.cip, Port: s.port}
 	cip := [2]int{-1, -1}
 	if s.cip != nil {
 		cip = halves(binary.BigEndian.Uint32(s.cip.To4()))
@@ -500,7 +506,30 @@ func (s *qSim) start(capacity int, withBl bool, again bool) {
 		pr := peerpriority.Calculate(&net.TCPAddr{IP: ip, Port: a.Port}, client)
 		pool[i] = ev{"ip": halves(a.IP), "port": a.Port, "prio": halves(pr), "ext": externalip.IsExternal(ip)}
 	}
-	emit(ev{"op": "Init", "cap": capacity, "port": s.port, "cip": cip, "bl": withBl, "pool": pool})
+	return cip, pool
+}
+
+// setCip changes the variable the list's clientIP pointer refers to (the torrent does this when it learns its
+// external address from a peer's extension handshake); nil = unknown.
+func (s *qSim) setCip(ip net.IP) {
+	s.cip = ip
+	cip, pool := s.describe()
+	s.view(ev{"op": "SetCip", "cip": cip, "prios": priosOf(pool)})
+}
+
+func priosOf(pool []ev) [][2]int {
+	out := make([][2]int, len(pool))
+	for i, a := range pool {
+		out[i] = a["prio"].([2]int)
+	}
+	return out
+}
+
+func ipOfHalves(h [2]int) net.IP {
+	if h[0] < 0 {
+		return nil
+	}
+	return ip4(unhalves(h))
 }
 
 func (s *qSim) view(e ev) {
@@ -510,9 +539,10 @@ func (s *qSim) view(e ev) {
 		ls[i] = s.al.LenSource(peersource.Source(i))
 	}
 	e["ls"] = ls
-	q := [][2]int{}
+	q := [][4]int{}
 	for _, it := range s.al.VerifDump() {
-		q = append(q, [2]int{s.ptrIdx[it.Addr], int(it.Source)})
+		h := halves(it.Priority)
+		q = append(q, [4]int{s.ptrIdx[it.Addr], int(it.Source), h[0], h[1]})
 	}
 	e["q"] = q
 	emit(e)
@@ -580,7 +610,8 @@ func protect(f func()) {
 type scriptHdr struct {
 	Hdr  bool   `json:"hdr"`
 	Port int    `json:"port"`
-	Cip  [2]int `json:"cip"`
+	Cip  [2]int   `json:"cip"`
+	Cips [][2]int `json:"cips"`
 	Pool []struct {
 		IP   [2]int `json:"ip"`
 		Port int    `json:"port"`
